@@ -10,12 +10,13 @@ CONSTANTS KindSet, Rates, Ks,      \* kinds, rate labels, sample counts k (durat
           ScaleVals, PhaseVals, DetVals
 
 Z0 == Q(0, 1)
-\* paddings in samples: aligned (j) or half-odd ((2j-1)/2, rounds up to j)
+\* paddings in samples: aligned (j), half-odd ((2j-1)/2) or a quarter above an integer ((4j+1)/4): the
+\* three shapes tell ceil from round and from floor
 PadPairs(rt) ==
   IF rt = "1e9"    \* j / 1e9 is not a binary fraction: aligned non-zero paddings would test float noise, not the rule
-  THEN {<<Z0, Z0>>, <<Q(3, 2), Q(1, 2)>>}
-  ELSE IF PadLevel = 1 THEN {<<Z0, Z0>>, <<Q(1, 1), Q(3, 2)>>, <<Q(1, 2), Z0>>}
-  ELSE {<<Z0, Z0>>, <<Q(1, 1), Q(3, 2)>>, <<Q(1, 2), Z0>>, <<Q(2, 1), Q(2, 1)>>, <<Z0, Q(5, 2)>>, <<Q(3, 2), Q(1, 1)>>}
+  THEN {<<Z0, Z0>>, <<Q(3, 2), Q(1, 4)>>}
+  ELSE IF PadLevel = 1 THEN {<<Z0, Z0>>, <<Q(1, 1), Q(3, 2)>>, <<Q(5, 4), Z0>>}
+  ELSE {<<Z0, Z0>>, <<Q(1, 1), Q(3, 2)>>, <<Q(5, 4), Z0>>, <<Q(2, 1), Q(2, 1)>>, <<Z0, Q(5, 2)>>, <<Q(1, 2), Q(9, 4)>>}
 PadsFor(kd, rt) == IF Padded(kd) THEN PadPairs(rt) ELSE {<<Z0, Z0>>}
 Durations == {Q(k, 1) : k \in Ks} \cup {Q(2 * k + 1, 2) : k \in MisKs}
 
